@@ -229,6 +229,33 @@ class Gen:
                          "what": "struct %s projected to fields %s (dropped: %s; ghost/extra: %d)" % (name, [x.split("=")[0] for x in fl], dropped, len(extra))})
         return i
 
+    def _auto_const(self, S, name, depth):
+        """value, type, line of a plain integer constant of source file S (other constants of the file may occur in its
+        expression), or None"""
+        if depth > 4:
+            return None
+        try:
+            it = S.find_item("const", name)
+        except AnchorLost:
+            return None
+        mm = re.match(r"(?:pub(?:\([a-z]+\))?\s+)?const \w+: (u8|u16|u32|u64|usize) = (.*);$", it["text"].strip(), re.S)
+        if not mm:
+            return None
+        expr = mm.group(2)
+        for inner in sorted(set(re.findall(r"\b[A-Z][A-Z0-9_]{2,}\b", expr))):
+            r = self._auto_const(S, inner, depth + 1)
+            if r is None:
+                return None
+            expr = re.sub(r"\b%s\b" % inner, "(%d)" % r[0], expr)
+        expr = re.sub(r"\bas (u8|u16|u32|u64|usize)\b", "", expr)
+        if not re.fullmatch(r"[0-9a-fA-Fx_\s<>+\-*()]+", expr):
+            return None
+        val = eval(expr.replace("_", ""), {"__builtins__": {}}, {})
+        bits = {"u8": 8, "u16": 16, "u32": 32, "u64": 64, "usize": 64}[mm.group(1)]
+        if not (0 <= val < (1 << bits)):
+            return None
+        return val, mm.group(1), it["line"]
+
     # ------------------------------------------------------------------ function holes
     def _fn(self, d, lines, i, tname):
         parts = [x.strip() for x in d[3:].split("::")]
@@ -329,6 +356,20 @@ class Gen:
                 self.log.append({"rule": rule, "file": rel, "fn": qual, "line": f["line"], "what": "`%s` => `%s` (x%d)" % (pat, rep, found)})
                 if rule == "R-STMT":
                     self.pins.append({"fn": qual, "file": rel, "statement": pat, "sha256": hashlib.sha256(pat.encode()).hexdigest()[:16], "wrapper": rep})
+        # R-CAST (automatic): a plain integer constant of the SAME source file that the body names but the template does
+        # not declare is replaced by its value, so that a body that starts to use another constant of its file is still
+        # taken (decided) instead of being rejected for an unknown name
+        tmpl_text = "\n".join(lines)
+        emitted = "\n".join(x[0] for x in self.out)
+        for cname in sorted(set(re.findall(r"\b[A-Z][A-Z0-9]*(?:_[A-Z0-9]+)+\b|\b[A-Z]{4,}\b", body))):
+            if re.search(r"\b(const|static)\s+%s\b" % cname, tmpl_text) or re.search(r"\b(const|static)\s+%s\b" % cname, emitted) or re.search(r"::\s*%s\b" % cname, body):
+                continue
+            res = self._auto_const(S, cname, 0)
+            if res is None:
+                continue
+            val, cty, cline = res
+            body = re.sub(r"\b%s\b" % cname, "(%d as %s)" % (val, cty), body)
+            self.log.append({"rule": "R-CAST", "file": rel, "fn": qual, "line": cline, "what": "constant %s (not declared by the template) replaced by its value %d" % (cname, val)})
         # loops
         loops = [x for x in directives if x[0] == "loop"]
         if loops:
